@@ -145,6 +145,13 @@ def gen_case(rng, i, tier):
         if rng.random() < 0.5:
             axs = [ren[a] for a in reversed(list(pos))]
         ren["D0"], ren["D1"] = axs[0], axs[1]
+    if kind == "ufunc" and i % 32 == 5:
+        # a dummy name that contains a position word (as part of a longer word) is a name like any other - in a quarter of
+        # the ufunc cases, decided from the case index without a draw
+        cand = ["xinner", "outer_x", "souterrain", "winners", "leftmost", "centered"][(i // 32) % 6]
+        if cand not in ren.values():
+            ren["D0"] = cand
+            cats = sorted(set(cats) | {"dummy-contains-position-word"})
         cats = sorted(set(cats) | {"dummy=axis-name"})
     return {"kind": kind, "pos": pos, "n": {a: rng.randint(2, 4) for a in pos}, "roles": roles, "renaming": ren, "cats": cats,
             "seed": rng.getrandbits(31), "spell": rng.choice(["str", "list", "tuple"])}
